@@ -10,17 +10,17 @@ from . import runner as R
 from .world import World, canon_store
 
 
-def gen_world_cfg(r):
-    enc = r.random() < 0.75
+def gen_world_cfg(r, deep=False):
+    enc = r.random() < (0.9 if deep else 0.75)
     kinds = []
     if enc:
-        for _ in range(r.choice([0, 1, 1, 2, 3])):
+        for _ in range(r.choice([1, 2, 2, 3]) if deep else r.choice([0, 1, 1, 2, 3])):
             kinds.append((r.choice(['clone', 'shared', 'shared', 'independent', 'independent']), None))
     else:
         for _ in range(r.choice([0, 1])):
             kinds.append(('clone', None))
     return {'enc': enc, 'users': kinds, 'chunking': r.choice([(8, 32), (8, 32), (16, 64), (5, 12), (13, 50)]),
-            'concurrent': r.choice([1, 2, 3, 5]), 'async_backend': r.random() < 0.3,
+            'concurrent': r.choice([1, 1, 1, 2]) if deep else r.choice([1, 2, 3, 5]), 'async_backend': r.random() < 0.3,
             'cipher': r.choice([None, None, {'name': 'chacha20_poly1305'}, {'name': 'aes_gcm', 'key_bits': 128}]) if enc else None}
 
 
@@ -50,7 +50,11 @@ def run_history(arg):
     from .. import common
     common.use_rebuilt_chunker()
     r = rng_for(seed, label, idx)
-    cfg = gen_world_cfg(r)
+    # 'deep' histories: MANY snapshot objects relative to the client's connection count (repositories larger than any look-ahead /
+    # batch / window sized from `concurrent`), by several keys, with the destructive commands rarer so that the repository grows
+    deep = label.endswith('-deep')
+    p_snap, p_del, p_clean = (0.74, 0.86, 0.97) if deep else (0.45, 0.72, 0.88)
+    cfg = gen_world_cfg(r, deep)
     log = {'idx': idx, 'cfg': cfg, 'steps': [], 'violations': [], 'flags': set()}
     with R.Scratch(f'h_{label}_{idx}') as sc:
         w = World(sc, enc=cfg['enc'], chunking=cfg['chunking'], concurrent=cfg['concurrent'], cipher=cfg['cipher'], async_backend=cfg['async_backend'])
@@ -82,7 +86,7 @@ def run_history(arg):
             present = [s for s, d in w.snap_by_sid.items() if d['location'] in w.backend.objects]
             k = r.random()
             st = {'user': w.model_user(ui), 'user_kind': u.kind, 'store_before': store0}
-            if k < 0.45 or not present:
+            if k < p_snap or not present:
                 repeat = prev is not None and r.random() < 0.25
                 fs = prev if repeat else gen_fileset(r, blocks, prev)
                 order = None
@@ -93,7 +97,7 @@ def run_history(arg):
                 prev = fs
                 st.update(kind='snapshot', op=res['op'], error=None, uploaded=sorted({tuple(w.abstract_name(x)) for x in res['uploaded']}),
                           upload_count=len(res['uploaded']), repeat=repeat)
-            elif k < 0.72:
+            elif k < p_del:
                 kk = r.random()
                 if kk < 0.7 and own:
                     sids = r.sample(own, r.choice([1, 1, 2]) if len(own) > 1 else 1)
@@ -103,7 +107,7 @@ def run_history(arg):
                     sids = [r.choice(present), 999000 + step_no] if r.random() < 0.5 else [999000 + step_no]
                 res = w.delete(ui, sids, repo=repo_of(ui))
                 st.update(kind='delete', op=res['op'], error=res['error'], targets=sids)
-            elif k < 0.88:
+            elif k < p_clean:
                 res = w.clean(ui, repo=repo_of(ui))
                 st.update(kind='clean', op=res['op'], error=res['error'])
             else:
@@ -147,6 +151,7 @@ def run_history(arg):
             st['stray_ok'] = w.backend.objects.get('stray/readme') == b'not replicat' and 'config' in w.backend.objects
             log['steps'].append(st)
         log['long_lived'] = long_lived
+        log['max_snapshots'] = max([sum(1 for e in st['store_before'] if e[0][0] == 'snap') for st in log['steps']] + [0])
         if long_lived:
             R.PERSISTENT_LOOP.close()
             R.PERSISTENT_LOOP = None
@@ -255,6 +260,8 @@ def run_histories(out, drv, label, n_hist, n_ops, oracles):
         out.count('enc' if log['cfg']['enc'] else 'plain')
         out.count('client:' + ('one-repository-object-per-user' if log.get('long_lived') else 'fresh-object-per-command'))
         out.count('users:%d' % log['n_users'])
+        m = log.get('max_snapshots', 0) / max(1, log['cfg']['concurrent'])
+        out.count('snapshot-objects-per-connection:' + ('≤5' if m <= 5 else '≤10' if m <= 10 else '≤25' if m <= 25 else '>25'))
         for k in log['user_kinds'][1:]:
             out.count('user:' + k)
         for st in log['steps']:
